@@ -27,7 +27,7 @@ for pid, c in sorted(PROPS.items()):
         'engine': 'contracts',
         'level_claimed': {'category': c['level'], 'text': text, 'design_ref': 'DESIGN.md §4 ' + pid},
         'level_note': 'Verus units: ' + units + ('; Kani: ' + kani if kani else '') + '. Trusted: ' + ' | '.join(TRUSTED[k] for k in c.get('trusted', [])) if c.get('trusted') else 'bounded only; trusted: rustc, the BEC oracles (A13 where Unicode tables are used)',
-        'technique': TECH[c['level']] + (f' [units {units}]' if c.get('units') else ''),
+        'technique': TECH[c['level']] + (f' [units {units}]' if c.get('units') else '') + (f'; Kani: {kani}' if kani else ''),
     })
 m = {
     'version': 1,
